@@ -11,6 +11,38 @@ def shape(toks):
     return "+".join(kinds) + ("/chained" if big else "")
 
 
+def tok_lengths(t):
+    """(min, max) length of a token; max None = unbounded"""
+    if t[0] == "jump":
+        return (t[1], t[2])
+    if t[0] == "alt":
+        ls = [seq_lengths(a) for a in t[1]]
+        return (min(l[0] for l in ls), None if any(l[1] is None for l in ls) else max(l[1] for l in ls))
+    return (1, 1)
+
+
+def seq_lengths(toks):
+    lo = sum(tok_lengths(t)[0] for t in toks)
+    his = [tok_lengths(t)[1] for t in toks]
+    return (lo, None if any(h is None for h in his) else sum(his))
+
+
+def chained_variable_piece(toks):
+    """is the pattern split into chained pieces (a top-level jump beyond YR_STRING_CHAINING_THRESHOLD) with a piece before the last one
+    that can match with several lengths?  (known finding: only one length of such a piece is remembered)"""
+    pieces, cur = [], []
+    for t in toks:
+        if t[0] == "jump" and (t[2] is None or t[2] > 200 or t[1] > 200):
+            pieces.append(cur)
+            cur = []
+        else:
+            cur.append(t)
+    pieces.append(cur)
+    if len(pieces) < 2:
+        return False
+    return any(seq_lengths(p)[0] != seq_lengths(p)[1] for p in pieces[:-1])
+
+
 def chain_item(r):
     """a pattern that the engine splits into 3..4 chained pieces (jumps above YR_STRING_CHAINING_THRESHOLD), and buffers with
     several candidate heads, several occurrences of each middle piece at gaps on and around the jump bounds, and tails"""
@@ -147,6 +179,8 @@ def run(chk):
             bufs.append(b".." + a + b"..")
             bufs.append(a)
         meta = {"shape": shape(toks) + ("/two-entry-jump" if g.aim else "")}
+        if chained_variable_piece(toks):
+            meta["known_missed_key"] = "chained-piece-variable-length"
         if fast:
             meta.update(cmd="hexf", pat=regen.hex_pat(toks))
         items.append((decl, sexp, bufs, meta))
@@ -156,6 +190,16 @@ def run(chk):
     for i in range(8 if tier == "quick" else 120):
         items.append(ooo_tail_item(chk.rng.fork()))
     agree, total, nontriv, rejected = recheck.compare(chk, model, hscan, items, "hex")
+    # probe of the known finding: a chained piece that can match with several lengths is remembered with one of them only
+    kd = bytearray(b"." * 260)
+    kd[0], kd[2], kd[80], kd[231] = 0x41, 0x42, 0x42, 0x43
+    ksrc = "rule k { strings: $a = { 41 [1-100] 42 [150-201] 43 } condition: $a }"
+    pout, _ = vlib.run_cases(hscan, [("k", ["newcompiler", "add " + hx(ksrc.encode()), "getrules", "scanner 0", "scan " + hx(bytes(kd))])], timeout=120, args=["30"])
+    sk = [l for l in pout.get("k", []) if l.startswith("scan msgs=")]
+    if sk and "M:default:k" not in sk[0]:
+        chk.violation("chained-piece-variable-length", "{ 41 [1-100] 42 [150-201] 43 } does not match A . B (77 bytes) B (150 bytes) C at offset 0: the first piece "
+                      "is remembered with its shortest length (3), from which the last piece is too far, although the piece also matches with length 81",
+                      {"rule": ksrc, "buffer": "260 dots with 41 at 0, 42 at 2 and 80, 43 at 231", "output": sk[0][:200]})
     # probe of the known finding: a hex string that is not a plain literal and is longer than YR_RE_SCAN_LIMIT bytes never matches
     lim = int(vlib.consts().get("YR_RE_SCAN_LIMIT", 1024))
     for n_, key in ((lim - 4, "scan-limit-probe"), (lim + 1, "non-literal-longer-than-scan-limit")):
